@@ -70,6 +70,34 @@ fn dominated(matrix: &[Vec<i64>], errors: bool, i: usize) -> bool {
     })
 }
 
+/// all c-subsets of 0..m in lexicographic order (the first one is 0..c)
+fn subsets_of(m: usize, c: usize) -> Vec<Vec<usize>> {
+    (0u32..(1 << m)).filter(|b| b.count_ones() as usize == c).map(|b| (0..m).filter(|i| b >> i & 1 == 1).collect::<Vec<_>>()).collect::<std::collections::BTreeSet<_>>().into_iter().collect()
+}
+
+/// The laws a configured case count c admits.  For c = m there is one.  For c < m the statement
+/// does not say which c cases are "the considered cases": every fixed c-subset and a uniformly
+/// random c-subset are all accepted readings (the first c cases first, which is what the crate does).
+fn readings(matrix: &[Vec<i64>], errors: bool, c: usize) -> Vec<(String, Vec<f64>)> {
+    let m = matrix.first().map_or(0, Vec::len);
+    let perms = permutations(c);
+    let mut out = vec![];
+    let mut mix = vec![0.0; matrix.len()];
+    let subsets = subsets_of(m, c);
+    for sub in &subsets {
+        let orders: Vec<Vec<usize>> = perms.iter().map(|p| p.iter().map(|i| sub[*i]).collect()).collect();
+        let law = law_over(matrix, errors, &orders);
+        for (a, b) in mix.iter_mut().zip(&law) {
+            *a += b / subsets.len() as f64;
+        }
+        out.push((format!("cases {sub:?}"), law));
+    }
+    if subsets.len() > 1 {
+        out.push(("a uniformly random subset of the cases".into(), mix));
+    }
+    out
+}
+
 fn gen_matrix(seed: u64) -> (Vec<Vec<i64>>, bool) {
     let mut x = seed;
     let mut next = move || {
@@ -78,7 +106,7 @@ fn gen_matrix(seed: u64) -> (Vec<Vec<i64>>, bool) {
     };
     let errors = next() % 2 == 0;
     let style = next() % 6;
-    let n = 1 + (next() % 6) as usize;
+    let n = 1 + (next() % 8) as usize;
     let m = (next() % 6) as usize;
     let (n, m) = match style {
         0 => (n, m),
@@ -106,12 +134,18 @@ fn gen_matrix(seed: u64) -> (Vec<Vec<i64>>, bool) {
     }
     if style == 5 && n >= 2 {
         matrix[1] = matrix[0].clone(); // duplicates
+        // groups of exact copies of unequal size
+        for i in 2..n {
+            if next() % 3 == 0 {
+                matrix[i] = matrix[(next() % i as u64) as usize].clone();
+            }
+        }
     }
     (matrix, errors)
 }
 
-fn run_lexicase<R: Res + From<i64>>(pop: &Pop<R>, m: usize, trials: u64, seed: u64, name: &str, matrix: &[Vec<i64>], errors: bool, law: &[f64]) -> Result<Vec<u64>, Fail> {
-    let lex = Lexicase::new(m);
+fn run_lexicase<R: Res + From<i64>>(pop: &Pop<R>, c: usize, trials: u64, seed: u64, name: &str, matrix: &[Vec<i64>], errors: bool, law: &[f64]) -> Result<Vec<u64>, Fail> {
+    let lex = Lexicase::new(c);
     let mut rng = StdRng::seed_from_u64(seed);
     let mut counts = vec![0u64; pop.len()];
     for t in 0..trials {
@@ -138,54 +172,69 @@ fn run_lexicase<R: Res + From<i64>>(pop: &Pop<R>, m: usize, trials: u64, seed: u
     Ok(counts)
 }
 
-fn jobs(seed: u64, n_matrices: u64) -> (Vec<Job>, Vec<Value>, usize) {
+fn jobs(seed: u64, n_matrices: u64) -> (Vec<Job>, Vec<Value>, usize, usize) {
     let mut n_discriminating = 0usize;
+    let mut n_partial = 0usize;
     let mut jobs = vec![];
     let mut descr = vec![];
     for k in 0..n_matrices {
-        let (matrix, errors) = gen_matrix(splitmix(seed ^ 0xC08) ^ k.wrapping_mul(0x9E37));
+        let ms = splitmix(seed ^ 0xC08) ^ k.wrapping_mul(0x9E37);
+        let (matrix, errors) = gen_matrix(ms);
         let n = matrix.len();
         let m = matrix.first().map_or(0, Vec::len);
-        let perms = permutations(m);
-        let law = law_over(&matrix, errors, &perms);
-        let no_shuffle = law_over(&matrix, errors, &[(0..m).collect::<Vec<_>>()]);
-        let first_only: Vec<Vec<usize>> = (0..m).map(|c| vec![c]).collect();
-        let first_only = if m == 0 { law.clone() } else { law_over(&matrix, errors, &first_only) };
+        // configured case count: mostly all results, otherwise fewer (0 included)
+        let c = if m == 0 || splitmix(ms ^ 0xCC) % 5 < 3 { m } else { (splitmix(ms ^ 0xCD) % m as u64) as usize };
+        n_partial += usize::from(c < m);
+        let rd = readings(&matrix, errors, c);
+        let law = rd[0].1.clone();
+        let no_shuffle = law_over(&matrix, errors, &[(0..c).collect::<Vec<_>>()]);
+        let first_only: Vec<Vec<usize>> = (0..c).map(|c| vec![c]).collect();
+        let first_only = if c == 0 { law.clone() } else { law_over(&matrix, errors, &first_only) };
         let dist = |a: &[f64], b: &[f64]| a.iter().zip(b).map(|(x, y)| (x - y).abs()).fold(0.0, f64::max);
         let discriminating = dist(&law, &no_shuffle) > 0.02 && dist(&law, &first_only) > 0.02;
         n_discriminating += usize::from(discriminating);
-        let name = format!("Lexicase({m}) {} matrix #{k} {matrix:?}", if errors { "errors" } else { "scores" });
-        if descr.len() < 6 || (discriminating && descr.len() < 12) {
-            descr.push(json!({"matrix": matrix, "errors_polarity": errors, "law": law, "law_without_shuffle": no_shuffle, "law_first_case_only": first_only, "discriminating": discriminating}));
+        let name = format!("Lexicase({c}) {} matrix #{k} {matrix:?}", if errors { "errors" } else { "scores" });
+        if descr.len() < 6 || (discriminating && descr.len() < 12) || (c < m && descr.len() < 16) {
+            descr.push(json!({"matrix": matrix, "configured_cases": c, "errors_polarity": errors, "law": law, "law_without_shuffle": no_shuffle, "law_first_case_only": first_only, "discriminating": discriminating, "readings": rd.len()}));
         }
-        let (matrix2, law2, name2) = (matrix.clone(), law.clone(), name.clone());
+        // support: what some reading allows
+        let support: Vec<f64> = (0..n).map(|i| rd.iter().map(|(_, l)| l[i]).fold(0.0, f64::max)).collect();
+        let (matrix2, name2) = (matrix.clone(), name.clone());
         jobs.push(Job {
             name: name.clone(),
             run: Box::new(move |trials, seed| {
+                // the considered columns under the crate's reading, for the wording of a support violation
+                let considered: Vec<Vec<i64>> = matrix2.iter().map(|r| r[..c.min(r.len())].to_vec()).collect();
                 let counts = if errors {
                     let pop = population::<ErrRes<i64>>(&matrix2, |r| ErrRes(r.iter().sum()));
-                    run_lexicase(&pop, m, trials, seed, &name2, &matrix2, errors, &law2)?
+                    run_lexicase(&pop, c, trials, seed, &name2, &considered, errors, &support)?
                 } else {
                     let pop = population::<Score<i64>>(&matrix2, |r| Score(r.iter().sum()));
-                    run_lexicase(&pop, m, trials, seed, &name2, &matrix2, errors, &law2)?
+                    run_lexicase(&pop, c, trials, seed, &name2, &considered, errors, &support)?
                 };
-                Ok((0..n)
-                    .map(|i| {
-                        let sig = if discriminating { "Lexicase/selection-law" } else { "Lexicase/selection-law-simple" };
-                        Stat::new(sig, format!("{name2}: individual {i} selected"), counts[i], trials, law2[i].min(1.0))
-                    })
-                    .collect())
+                // judge against the reading that fits best; only if none fits, report against the first
+                let fits = |law: &[f64]| (0..n).all(|i| !crate::stats::flags(counts[i], trials, law[i].min(1.0), crate::stats::ALPHA));
+                let chosen = rd.iter().find(|(_, l)| fits(l)).unwrap_or(&rd[0]);
+                let sig = if c < m {
+                    "Lexicase/selection-law-fewer-cases"
+                } else if discriminating {
+                    "Lexicase/selection-law"
+                } else {
+                    "Lexicase/selection-law-simple"
+                };
+                Ok((0..n).map(|i| Stat::new(sig, format!("{name2}: individual {i} selected"), counts[i], trials, chosen.1[i].min(1.0))).collect())
             }),
         });
     }
-    (jobs, descr, n_discriminating)
+    (jobs, descr, n_discriminating, n_partial)
 }
 
 pub fn run(ctx: &mut Ctx) {
     let (n_matrices, trials) = ctx.tier.pick((400u64, 400_000u64), (8_000, 2_000_000));
-    ctx.rule = format!("{n_matrices} generated result matrices (1..6 individuals x 0..5 cases, values 0..3, specialists / heavy ties / duplicates / singleton / zero cases, both polarities), configured case count = number of results; {trials} seeded draws each through the real Lexicase. Oracle: the exact law P(i) = sum over all case orders [i survives] / (|survivors| * c!) with an independent definition of 'better'; every draw: P(winner) > 0 (never dominated) exactly; frequencies by the Chernoff/KL rule. non-trivial = a (matrix, individual) statistic with 0 < p < 1");
-    ctx.assumptions.push("configured case counts smaller than the number of results are not judged here (which cases are then considered is not specified); C06 covers their error behaviour".into());
-    let (jobs, descr, discriminating) = jobs(ctx.seed, n_matrices);
+    ctx.rule = format!("{n_matrices} generated result matrices (1..8 individuals x 0..5 cases, values 0..3, specialists / heavy ties / groups of exact copies / singleton / zero cases, both polarities), configured case count = number of results in 3 of 5 matrices and a smaller count (0 included) otherwise; {trials} seeded draws each through the real Lexicase. Oracle: the exact law P(i) = sum over all case orders [i survives] / (|survivors| * c!) with an independent definition of 'better'; every draw: P(winner) > 0 (never dominated) exactly; frequencies by the Chernoff/KL rule. non-trivial = a (matrix, individual) statistic with 0 < p < 1");
+    ctx.assumptions.push("for a configured case count c smaller than the number of results the statement does not say which c cases are considered: the law of every fixed c-subset and of a uniformly random c-subset are all accepted (the observed frequencies are judged against the reading that fits them best), and a winner only has to be possible under one of them".into());
+    let (jobs, descr, discriminating, partial) = jobs(ctx.seed, n_matrices);
+    ctx.extra.insert("matrices_with_fewer_configured_cases_than_results".into(), json!(partial));
     ctx.extra.insert("sample_matrices".into(), json!(descr));
     ctx.extra.insert("matrices_whose_law_differs_from_no_shuffle_and_first_case_only".into(), json!(discriminating));
     run_jobs(ctx, "lexicase_laws", jobs, trials);
